@@ -13,6 +13,11 @@
 void *memcpy(void *dst, const void *src, size_t n) {
   __CPROVER_precondition(__CPROVER_r_ok(src, n), "memcpy src readable");
   __CPROVER_precondition(__CPROVER_w_ok(dst, n), "memcpy dst writable");
+  /* C11 7.24.2.1: copying between overlapping objects is undefined (same clause as stubs/mem_stubs.c) */
+  __CPROVER_precondition(n == 0 || !__CPROVER_same_object(dst, src) ||
+                         (size_t)__CPROVER_POINTER_OFFSET(dst) + n <= (size_t)__CPROVER_POINTER_OFFSET(src) ||
+                         (size_t)__CPROVER_POINTER_OFFSET(src) + n <= (size_t)__CPROVER_POINTER_OFFSET(dst),
+                         "memcpy ranges do not overlap");
   if (n != 0) __CPROVER_havoc_object(dst);
   return dst;
 }
